@@ -11,7 +11,11 @@ mkdir -p .build evidence
 MODS=$(python3 -c "
 import sys; sys.path.insert(0,'tools')
 from props import PROPS
-print(' '.join('SST.Props.'+p for p in PROPS))")
+import glob, os
+mods = []
+for p in PROPS:
+    mods += ['SST.Props.' + os.path.basename(f)[:-5] for f in [f'lean/SST/Props/{p}.lean'] + sorted(glob.glob(f'lean/SST/Props/{p}_*.lean')) if os.path.exists(f)]
+print(' '.join(mods))")
 (cd lean && lake build sstdrv $MODS)
 (cd harness && go build -tags verif -o ../.build/sstcheck ./cmd/sstcheck)
 echo setup-ok
